@@ -1,3 +1,5 @@
+//go:build c15 || all
+
 package main
 
 import (
@@ -9,12 +11,13 @@ import (
 )
 
 // C15: content stream framing.  Lines:
-//   enc <items> | <hex>
-//   dec <hex> | ok <items>  /  err <class>  / panic
-//   dec1 <hex> | ok <content> <remaining> / err <class>
-//   utpenc <ver> <hex> | ok <hex> / err
-//   utpdec <ver> <hex> | ok <hex> / err <class>
-//   trunc <items> <cut> | <result of decoding the first <cut> bytes of the encoding>   (monitor input)
+//
+//	enc <items> | <hex>
+//	dec <hex> | ok <items>  /  err <class>  / panic
+//	dec1 <hex> | ok <content> <remaining> / err <class>
+//	utpenc <ver> <hex> | ok <hex> / err
+//	utpdec <ver> <hex> | ok <hex> / err <class>
+//	trunc <items> <cut> | <result of decoding the first <cut> bytes of the encoding>   (monitor input)
 var c15errs = []struct {
 	frag string
 	cls  int
